@@ -29,15 +29,16 @@ class AnalysisLimit(Exception):
 
 
 class Event:
-    __slots__ = ("kind", "body", "ln", "info", "stack", "in_log")
+    __slots__ = ("kind", "body", "ln", "info", "stack", "in_log", "bb")
 
-    def __init__(self, kind, body, ln, info, stack, in_log=False):
+    def __init__(self, kind, body, ln, info, stack, in_log=False, bb=None):
         self.kind = kind
         self.body = body
         self.ln = ln
         self.info = info
         self.stack = stack
         self.in_log = in_log
+        self.bb = bb
 
     def __repr__(self):
         return "<%s %s:%s %r>" % (self.kind, self.body, self.ln, self.info)
@@ -128,13 +129,16 @@ class Interp:
         self.fn_overrides = {}
         self.stats = {"stmts": 0, "calls": 0, "memo_hits": 0, "memo_miss": 0}
         self.memo = False
+        self.cur = None
         self.memo_cache = {}
         self.recorders = []
 
     # ------------------------------------------------------------------
     # events
     def ev(self, kind, body, ln, info, in_log=False):
-        e = Event(kind, body.path if body else None, ln, info, tuple(self.stack), in_log)
+        cur = self.cur
+        bb = cur[1] if (cur is not None and body is not None and cur[0] == body.path) else None
+        e = Event(kind, body.path if body else None, ln, info, tuple(self.stack), in_log, bb)
         self.events.append(e)
         for rec in self.recorders:
             rec.events.append(e)
@@ -1053,6 +1057,7 @@ class Interp:
         k = t["k"]
         ln = t.get("ln", 0)
         in_log = bool(set(t.get("mx", ())) & LOG_MACROS)
+        self.cur = (body.path, bb)
         if k == "goto":
             return [(t["t"], st)]
         if k == "ret":
@@ -1090,6 +1095,7 @@ class Interp:
                 rv = self.call_value(st, depth, fv, args, body, ln)
             else:
                 rv = self.call_fn(st, depth, f, args, body, ln, in_log)
+            self.cur = (body.path, bb)
             if rv is BOT or t["t"] is None:
                 if t["t"] is None and not in_log:
                     pass
